@@ -182,8 +182,32 @@ def bases(ctx, rng):
     for a_, b_ in (("EC-P256", "EC-P256-b"), ("EC-P384", "EC-P384-b"), ("EC-P521", "EC-P521-b")):
         out.append(("jwk.exc", {"prv": pool[a_], "pub": K.public(pool[b_])}))
         out.append(("jwk.exc", {"prv": dict(pool[a_], alg="ECMR"), "pub": dict(K.public(pool[b_]), alg="ECMR")}))
-    out.append(("b64.dec_load", {"i": G.enc({"a": [1, 2, {"b": None}]})}))
-    out.append(("b64.enc_dump", {"i": {"z": 1, "a": "é"}}))
+    out.append(("b64.dec_load", {"j": G.enc({"a": [1, 2, {"b": None}]})}))
+    out.append(("b64.enc_dump", {"j": {"z": 1, "a": "é"}}))
+    out.append(("b64.dec", {"j": G.b64u(b"decode me"), "ol": 9}))
+    # caller-supplied content keys of boundary lengths through every wrapping family; public-only keys; agreement data
+    for w, kn in (("A128KW", "oct-16"), ("A256GCMKW", "oct-32"), ("RSA-OAEP", "RSA-2048"), ("RSA1_5", "RSA-2048"), ("ECDH-ES+A128KW", "EC-P256"), ("PBES2-HS256+A128KW", None)):
+        for n in (16, 1024, 1025):
+            out.append(("jwe.enc_jwk", {"jwe": {"protected": dict({"alg": w, "enc": "A128GCM"}, **({"p2c": 1000} if w.startswith("PBES2") else {}))}, "rcp": {},
+                                        "jwk": pool[kn] if kn else "password", "cek": {"kty": "oct", "k": G.b64u(bytes([0xA5]) * n)}, "rand": rng.randbytes(300).hex()}))
+    out.append(("jwe.enc", {"jwe": {"protected": {"alg": "RSA-OAEP", "enc": "A128GCM"}}, "jwk": K.public(pool["RSA-2048"]), "pt": "00", "rand": rng.randbytes(300).hex()}))
+    out.append(("jwe.enc", {"jwe": {"protected": {"alg": "ECDH-ES", "enc": "A128GCM", "apu": G.b64u(bytes(1024)), "apv": G.b64u(bytes(1025))}},
+                            "jwk": K.public(pool["EC-P256"]), "pt": "00", "rand": rng.randbytes(300).hex()}))
+    out.append(("jwe.enc", {"jwe": {"protected": {"alg": "ECDH-ES", "enc": "A128GCM", "apu": G.b64u(b"A"), "apv": G.b64u(b"B")}}, "jwk": pool["EC-P256"], "pt": "00",
+                            "rand": rng.randbytes(300).hex()}))
+    for n_ in ("RSA-2048", "EC-P256", "EC-K256"):
+        out.append(("ossl.roundtrip", {"jwk": K.public(pool[n_])}))
+    out.append(("ossl.roundtrip", {"jwk": pool["oct-32"]}))
+    # templates with an already encoded protected header, names in the shared unprotected header
+    out.append(("jwe.enc_cek", {"jwe": {"protected": G.enc({"zip": "DEF"})}, "cek": {"kty": "oct", "k": G.b64u(rng.randbytes(32))}, "pt": "00" * 5000, "rand": "44" * 16}))
+    out.append(("jwe.enc", {"jwe": {"protected": G.enc({"alg": "A128KW"}), "unprotected": {"enc": "A128GCM"}}, "jwk": pool["oct-16"], "pt": "", "rand": rng.randbytes(300).hex()}))
+    out.append(("jws.sig", {"jws": {"payload": pay}, "sig": {"protected": G.enc({"kid": "x"})}, "jwk": pool["oct-32"]}))
+    out.append(("jwe.enc_cek", {"jwe": {"protected": {"enc": "A128GCM", "zip": "DEF"}}, "cek": {"kty": "oct", "k": G.b64u(rng.randbytes(16))}, "pt": "", "rand": "44" * 16}))
+    out.append(("jwe.enc_cek", {"jwe": {"protected": {"enc": "A128CBC-HS256", "zip": "DEF"}}, "cek": {"kty": "oct", "k": G.b64u(rng.randbytes(32))}, "pt": "ab" * 20000, "rand": "44" * 16}))
+    out.append(("jwk.pub", {"jwk": dict(pool["EC-P256"], key_ops=["sign", "verify", "sign", 5])}))
+    out.append(("jwk.pub", {"jwk": dict(pool["oct-32"], key_ops=["sign", "verify", "encrypt", "decrypt"])}))
+    for t in ({"alg": "A128GCM"}, {"alg": "ECDH-ES+A128KW"}, {"alg": "ECMR"}, {"alg": "A128KW"}, {"kty": "oct", "bytes": 1024}, {"kty": "oct", "bytes": 1025}):
+        out.append(("jwk.gen", {"jwk": t, "rand": rng.randbytes(1100).hex()}))
     return out
 
 
@@ -205,6 +229,10 @@ def rsa_private_edited(args, pool_privs):
             if v.get("kty") == "RSA" and any(m in v for m in RSA_PRIV[2:]):
                 if json.dumps({m: v.get(m) for m in RSA_PRIV}, sort_keys=True) not in pool_privs:
                     return True
+            elif v.get("kty") == "RSA" and ("n" in v or "e" in v):
+                # public values that are not those of a pool key: OpenSSL's own limits on e and n decide
+                if not any(json.loads(p_).get("n") == v.get("n") and json.loads(p_).get("e") == v.get("e") for p_ in pool_privs):
+                    return True
             return any(walk(x) for x in v.values())
         if isinstance(v, list):
             return any(walk(x) for x in v)
@@ -219,8 +247,10 @@ def model_scope(op, args, pool_privs):
     for k in ("jwk",):
         if k in args and key_lists_nested(args[k]) and op not in ("jws.ver", "jws.ver_io"):
             return "nested key lists are modelled for verification only"
+    if op in ("jwk.thp", "jwk.thp_buf") and not isinstance(args.get("alg"), str):
+        return "hash name not a string (the harness then passes NULL, which no caller of the documented API does)"
     if rsa_private_edited(args, pool_privs):
-        return "inconsistent RSA private members: OpenSSL-internal behaviour"
+        return "RSA members that are not those of a generated key: OpenSSL-internal behaviour"
     return None
 
 
@@ -238,7 +268,7 @@ def p_check(op, args, real):
 
 def canon(op, args, r):
     if isinstance(r, dict):
-        r = {k: v for k, v in r.items() if k not in ("leak_bytes", "rand_calls")}
+        r = {k: v for k, v in r.items() if k not in ("leak_bytes", "rand_calls", "canary")}
         if op in ("jwe.enc_cek", "jwe.enc_cek_io") and r.get("ok") and isinstance(r.get("jwe"), dict):
             try:
                 z = json.loads(G.b64d(r["jwe"]["protected"])).get("zip")
